@@ -191,7 +191,8 @@ def main(argv=None):
         if e.get("status") == "violation":
             if e.get("known"):
                 continue
-            violations.append((e["name"], "bounded:" + e["name"], [e], "bounded", None))
+            for c in e.get("failures") or [e]:
+                violations.append(("%s/%s" % (e["name"], c.get("kind", "")), "bounded:" + e["name"], [c], "bounded", None))
         elif e.get("status") == "crash":
             crashes.append((e["name"], "extra", {"kind": "crash", "msg": e.get("detail", "")}))
         for kl in e.get("known_lines", []):
@@ -216,6 +217,7 @@ def main(argv=None):
         tail = "" if (outcome and outcome.get("replayed") and outcome.get("confirmed")) else " no-failing-input-found"
         vio_lines.append("VIOLATION property=%s replay=%s obligation=%s%s" % (prop, path, name, tail))
 
+    known_lines = list(dict.fromkeys(known_lines))
     for l in known_lines:
         print(l)
     for u, p, e in undecided:
@@ -253,8 +255,13 @@ def main(argv=None):
     }
     if level != "proof":
         cov["evaluations"] = max(1, n_obl + sum(e.get("evaluations", 0) for e in extras))
-        cov["distinct_nontrivial"] = max(2, n_dis + sum(e.get("distinct", 0) for e in extras))
-        cov["rule"] = "one evaluation per generated obligation (SMT query) plus the cases of the bounded stand-ins; distinct = distinct obligation names discharged + distinct bounded cases"
+        cov["distinct_nontrivial"] = n_dis + sum(e.get("distinct", 0) for e in extras)
+        cov["rule"] = "one evaluation per generated obligation (SMT query) plus the cases of the bounded stand-ins; " + " ".join(e.get("rule", "") for e in extras)
+        if extras and n_obl == 0:
+            cov["exhaustive"] = all(e.get("exhaustive") for e in extras)
+        bs = [x for e in extras for x in e.get("samples", [])]
+        if bs:
+            cov["samples"] = bs + [x for x in cov["samples"] if "note" not in x]
     ev = {"property_id": prop, "tier": a.tier if a.tier in ("quick", "thorough") else "quick", "seed": seed, "level": level,
           "coverage": cov, "assumptions": assumptions, "wall_s": round(wall, 2), "violations": len(violations)}
     with open(os.path.join(OUT, "evidence", "%s.json" % prop), "w") as fh:
@@ -270,8 +277,9 @@ def main(argv=None):
                     names[rep["pass_name"] + "|" + name] = agg_status(insts)
         bl[prop] = {"obligations": names, "unit_sha": shas}
         json.dump(bl, open(bl_path, "w"), indent=1, sort_keys=True)
-    print("%s: %d/%d obligations discharged, %d units, %d known findings, %d violations, %d undecided, %.1fs" % (
-        prop, n_dis, n_obl, len(unit_keys) + len(lemma_keys), len(known_lines), len(violations), len(undecided), wall))
+    print("%s: %d/%d obligations discharged, %d units, %d known findings, %d violations, %d undecided, %.1fs%s" % (
+        prop, n_dis, n_obl, len(unit_keys) + len(lemma_keys), len(known_lines), len(violations), len(undecided), wall,
+        "".join("; BOUNDED %s: %d cases, %s" % (e.get("name"), e.get("evaluations", 0), e.get("status")) for e in extras)))
     if violations:
         return 1
     if crashes or canary_fail:
